@@ -549,6 +549,51 @@ def overload_names(model):
     return sorted(n for n, k in seen.items() if k > 1)
 
 
+def _two_wrappers(y1, d1, y2, d2):
+    """Child body: two libraries wrapped one after the other through the documented programmatic entry
+    point; -> the file lists the second call reports."""
+    import shroud
+    import shroud.main
+    shroud.main.create_wrapper(y1, outdir=d1)
+    cfg = shroud.main.create_wrapper(y2, outdir=d2)
+    return dict(cfiles=list(cfg.cfiles), ffiles=list(cfg.ffiles))
+
+
+def _seq_job(job):
+    """create_wrapper() "Return config instance. It has list of files created": the lists of the second of two
+    calls in one process name exactly the files of that call (property: 'the files written in this run')."""
+    idx, name1, text1, flags1, name2, text2, flags2 = job
+    out = dict(name="%s+%s" % (name1, name2), runs=2, fails=[], nontrivial=[(name1, name2, repr(flags1), repr(flags2))], samples=[])
+    work = tempfile.mkdtemp(prefix="vf15s_", dir=core.scratch_root())
+    try:
+        paths = []
+        for k, (nm, text, flags) in enumerate(((name1, text1, flags1), (name2, text2, flags2))):
+            doc = meta.with_options(meta.load(text), {"wrap_c": flags["c"], "wrap_fortran": flags["fortran"], "wrap_python": False,
+                                                      "wrap_lua": False})
+            yp = os.path.join(work, "in%d_%s.yaml" % (k, nm))
+            with open(yp, "w") as fp:
+                fp.write(meta.dump(doc))
+            od = os.path.join(work, "out%d" % k)
+            os.makedirs(od)
+            paths += [yp, od]
+        res = shroud_run.in_child(_two_wrappers, tuple(paths), cwd=work)
+        cdesc = dict(sequence=dict(first=dict(name=name1, yaml=text1, flags=flags1), second=dict(name=name2, yaml=text2, flags=flags2)))
+        if res["status"] != "ok":
+            out["fails"].append(("sequence-failed", cdesc, "two create_wrapper calls in one process stop: %s" % (res.get("exc_text") or res.get("stderr", ""))[-600:]))
+            return out
+        od = paths[3]
+        files = sorted(os.listdir(od))
+        lists = {"cfiles.txt": " ".join(res["extra"]["cfiles"]), "ffiles.txt": " ".join(res["extra"]["ffiles"])}
+        for key, note in check_lists(lists, files, od, "second of two create_wrapper() calls (%s after %s)" % (name2, name1)):
+            out["fails"].append(("sequence:" + key, cdesc, note))
+        if not flags2["fortran"] and res["extra"]["ffiles"]:
+            out["fails"].append(("sequence:fortran-listed-when-off", cdesc, "Fortran is off in the second call, yet it lists %s" % res["extra"]["ffiles"]))
+        out["samples"].append(dict(sequence=[name1, name2], second_lists={k: [os.path.basename(x) for x in v.split()] for k, v in lists.items()}))
+    finally:
+        shutil.rmtree(work, ignore_errors=True)
+    return out
+
+
 def run(ctx):
     quick = ctx.tier == "quick"
     ctx.rule = ("library (generated with unique function names, or corpus entry) x Hypothesis-drawn case = (wrap_c/"
@@ -587,7 +632,14 @@ def run(ctx):
     for e in ents:
         cases = smallgen.sample(case_strategy([]), ctx.seed + len(jobs), 4 if quick else 10)
         jobs.append((e.yaml[:-5], e.text(), _strip_wrap_options(e.argv()), cases, [], True))
-    for out in core.pool_map(_job, jobs):
+    # histories of two in-process calls: the second call's file lists are its own
+    seqs = []
+    ymodels = [(m["library"], smallgen.to_yaml(m)) for m in models[:(8 if quick else 40)]]
+    for i in range(len(ymodels) - 1):
+        for f1, f2 in ((dict(c=True, fortran=True), dict(c=True, fortran=False)), (dict(c=True, fortran=True), dict(c=True, fortran=True))):
+            seqs.append((len(seqs), ymodels[i][0], ymodels[i][1], f1, ymodels[i + 1][0], ymodels[i + 1][1], f2))
+    results = core.pool_map(_job, jobs) + core.pool_map(_seq_job, seqs)
+    for out in results:
         ctx.case(n=out["runs"], label="run")
         for nt in out["nontrivial"]:
             ctx.case(n=0, nontrivial=nt)
@@ -623,6 +675,12 @@ def _strip_wrap_options(argv):
 
 def replay(ctx, rec):
     c = rec["case"]
+    if "sequence" in c:
+        a, b = c["sequence"]["first"], c["sequence"]["second"]
+        out = _seq_job((0, a["name"], a["yaml"], a["flags"], b["name"], b["yaml"], b["flags"]))
+        for key, case, note in out["fails"]:
+            ctx.failure(key, case, observed=note, note=note)
+        return
     cases = [c["case"]] if c.get("case") else []
     funcs = [tuple(x) for x in (c.get("model_funcs") or [])]
     out = _job((c["lib"], c["yaml"], c["argv"], cases, funcs, c.get("corpus_entry", False), c.get("ns_members") or {},
